@@ -115,6 +115,7 @@ class Normaliser:
         self.only_f = {q for q in ff if q not in rf}
         self.only_r = {q for q in rf if q not in ff}
         # helper tables for inlining: callables only one side has
+        self.refs_before = {ff[q][0].name: self._references(ff[q][0].name) for q in self.only_f}
         self.helpers_f = self._helper_table(ff, self.only_f)
         self.helpers_r = self._helper_table(rf, self.only_r)
         shared_names = set()
@@ -458,9 +459,16 @@ class Normaliser:
                 if not quiet:
                     self._left(ctx["q"], "nested definitions differ", fseg[0] if fseg else None, block=fs)
                 return False
+            # a definition that only the reference has is never introduced by substitution: a function the current tree lacks is a
+            # difference the rules must see (it is put back only when normalised code calls it, see _restore_reference_helpers)
+            only_r = set(rdefs_all) - set(fdefs_all)
+            if any(isinstance(n, (ast.FunctionDef, ast.AsyncFunctionDef)) and n.name in only_r and not any(n is s for s in rseg) for s in rseg for n in ast.walk(s)):
+                if not quiet:
+                    self._left(ctx["q"], "a function definition that only the reviewed version has is nested in the run", fseg[0] if fseg else None, block=fs)
+                return False
             if self._prove_stmts(fseg, rseg, fs, i1, i2, ctx, in_loop, quiet):
                 extra = [n for n in fdefs_all.values() if n.name not in rdefs_all and any(n is s for s in fseg)]
-                fs[i1:i2] = extra + [copy.deepcopy(s) for s in rseg]
+                fs[i1:i2] = extra + [copy.deepcopy(s) for s in rseg if not (isinstance(s, (ast.FunctionDef, ast.AsyncFunctionDef)) and s.name in only_r)]
                 return True
             return False
         if self._prove_stmts(fseg, rseg, fs, i1, i2, ctx, in_loop, quiet):
@@ -568,7 +576,9 @@ class Normaliser:
             if q not in ff:
                 continue
             node, container, _, _ = ff[q]
-            if self._references(node.name) == 0 and not node.name.startswith("__") and not _dynamic_prefix(node.name):
+            # only helpers whose calls were normalised away: a new function nobody in the module ever referred to (a public method, a
+            # callback looked up by name) is not ours to remove
+            if self.refs_before.get(node.name, 0) > 0 and self._references(node.name) == 0 and not node.name.startswith("__") and not _dynamic_prefix(node.name):
                 try:
                     container.remove(node)
                     removed.append(q)
